@@ -291,12 +291,15 @@ stream hands on what the command channel yields and closes that channel nowhere 
 `ServerHandle::stop` discards the result of its send at once, an undelivered command with it
 (`stop_after_completion_resolves`); and the join the graceful `Stop` awaits is the crate's own `join_all`, which
 is ready only when no future is pending, whatever the others yielded — a dead worker's stop receiver yields
-`Err` at once and the live workers are still waited for (`awaitWorker w` for every `w`, `graceful_waits_server`). -/
+`Err` at once and the live workers are still waited for (`awaitWorker w` for every `w`, `graceful_waits_server`);
+and the `Stop` arm ends by stopping the actix System only if there is one — on a plain Tokio runtime a stop that
+asks for a system stop (any OS signal, `system_exit()`) lets `run` return all the same. -/
 theorem source_shape (workers : List Nat) (g : Bool) (comp : Option Nat) :
     stopEvs srcWakeFirst workers g comp = Src.hcStopOrder.flatMap (stepEvs workers g comp Src.hcAwaitGuard) ∧
     Src.srRunBreaksOnStopping = true ∧ Src.hsStopSendsEagerly = true ∧ Src.wkNoneArmPollsStop = true ∧
-    Src.smMuxHandsOnCmdRx = true ∧ Src.hsStopDropsUndelivered = true ∧ Src.jaWaitsForAll = true := by
-  refine ⟨?_, rfl, rfl, rfl, rfl, rfl, rfl⟩
+    Src.smMuxHandsOnCmdRx = true ∧ Src.hsStopDropsUndelivered = true ∧ Src.jaWaitsForAll = true ∧
+    Src.hcSystemStopIfAny = true := by
+  refine ⟨?_, rfl, rfl, rfl, rfl, rfl, rfl, rfl⟩
   first
     | (have hw : srcWakeFirst = true := by decide
        rw [hw]; simp [stopEvs, stepEvs, Src.hcStopOrder, Src.hcAwaitGuard, List.flatMap])
